@@ -4,13 +4,15 @@
 
    A store CALL is a record
        [tshape |-> <<shape of target 1, shape of target 2, ...>>,
-        src    |-> << [shape, chunks, tgt, start, step, base], ... >>]
+        src    |-> << [shape, chunks, tgt, start, step, base, per], ... >>]
    source q (an array of shape `shape` cut into `chunks`) is written into target
    number `tgt`, region  start[d] + step[d] * i  along every axis d  (the Python
    region slice(start, ., step); no region = start 0, step 1).  Cells hold element
    ids: the cell of source q at 0-based index tuple g holds
-       base + Ravel(shape, g) + 1        (positive; the harness gives different sources disjoint id
-                                          ranges - the same range twice = the same array stored twice),
+       base + (Ravel(shape, g) % per) + 1    (positive; the harness gives different sources disjoint id
+                                              ranges - the same range twice = the same array stored twice;
+                                              per < Size(shape) makes the content periodic, so that one
+                                              array can be stored into overlapping regions with equal content),
    target cells start as 0 ("untouched").  Positions in a target are 1-based
    row-major ravel positions.
 
@@ -22,6 +24,7 @@
    STATE (a record, so that the state machine StoreMC and the trace validator
    StoreTrace share one definition):
        tg      tg[t][p]  the cells of target t
+       wn      wn[t][p]  how many writes of cell p of target t have completed
        wr      the set of cells <<t, p>> whose write has completed
        fl      the writes in flight (entered __setitem__, not yet left it)
        hold    who holds the lock (0 = nobody)
@@ -56,7 +59,8 @@ BlockIdx(sr, bt) ==
 \* target index tuple / target position (1-based ravel) of source index tuple g: region[g]
 TIndex(sr, g)     == [d \in DOMAIN g |-> sr.start[d] + sr.step[d] * g[d]]
 TPos(call, sr, g) == Ravel(call.tshape[sr.tgt], TIndex(sr, g)) + 1
-SVal(call, q, g)  == Base(call, q) + Ravel(call.src[q].shape, g) + 1
+SVal(call, q, g)  == Base(call, q) + (Ravel(call.src[q].shape, g) % call.src[q].per) + 1
+SourceCells(call, q) == [j \in 1..Size(call.src[q].shape) |-> Base(call, q) + ((j - 1) % call.src[q].per) + 1]
 
 \* StoreBlock(q, bt):  out[fuse_slice(region, index)] = x
 BlockWrite(call, q, bt) ==
@@ -83,29 +87,40 @@ Expected(call, t) ==
   IN [p \in 1..Size(call.tshape[t]) |-> IF \E w \in pr : w[1] = p THEN (CHOOSE w \in pr : w[1] = p)[2] ELSE 0]
 ExpectedAll(call) == [t \in 1..NTgt(call) |-> Expected(call, t)]
 
+\* how many (source, element) pairs of the call go to cell p of target t: the same array may be stored
+\* several times (into different targets, into different regions of one target - tiling -, even into
+\* overlapping regions when the overlapping elements are equal); 1 everywhere for disjoint regions
+PosSeq(call, t) ==
+  FlattenSeq([q \in 1..NSrc(call) |->
+     IF call.src[q].tgt # t THEN <<>>
+     ELSE LET gs == Idx0(call.src[q].shape) IN [j \in DOMAIN gs |-> TPos(call, call.src[q], gs[j])]])
+Cover(call, t) == LET ps == PosSeq(call, t)
+                  IN [p \in 1..Size(call.tshape[t]) |-> Cardinality({ i \in DOMAIN ps : ps[i] = p })]
+CoverAll(call) == [t \in 1..NTgt(call) |-> Cover(call, t)]
+
 SrcOK(call, sr) ==
   /\ sr.tgt \in 1..NTgt(call)
   /\ Len(sr.chunks) = Len(sr.shape) /\ Len(sr.start) = Len(sr.shape) /\ Len(sr.step) = Len(sr.shape)
   /\ Len(call.tshape[sr.tgt]) = Len(sr.shape)
-  /\ ValidChunks(sr.shape, sr.chunks)
+  /\ ValidChunks(sr.shape, sr.chunks) /\ sr.per >= 1
   /\ \A d \in DOMAIN sr.shape :
         /\ sr.step[d] >= 1 /\ sr.start[d] >= 0
         /\ sr.shape[d] = 0 \/ sr.start[d] + sr.step[d] * (sr.shape[d] - 1) < call.tshape[sr.tgt][d]
-\* the regions of the sources of one call are pairwise disjoint (the caller's obligation)
+\* the caller's obligation: where the regions of a call overlap, they carry equal elements
+\* (so the result does not depend on the order of the writes)
 WellFormed(call) ==
   /\ \A q \in 1..NSrc(call) : SrcOK(call, call.src[q])
-  /\ \A t \in 1..NTgt(call) :
-        Cardinality({ w[1] : w \in TgtPairs(call, t) }) = SumSeq([q \in 1..NSrc(call) |->
-              IF call.src[q].tgt = t THEN Size(call.src[q].shape) ELSE 0])
+  /\ \A t \in 1..NTgt(call) : \A w1, w2 \in TgtPairs(call, t) : w1[1] = w2[1] => w1[2] = w2[2]
 
 PosSet(w) == { w.pos[j] : j \in DOMAIN w.pos }
 
 \* design facts about the geometry (checked by TLC for every enumerated call):
-\* the block writes of a call never overlap and together cover exactly the regions
+\* every cell is in exactly as many block writes as (source, element) pairs go to it - in particular
+\* the block writes never overlap where the regions do not -, and together they cover exactly the regions
 BlocksDisjoint(call) ==
   LET bl == AllBlocks(call)
-  IN \A i \in DOMAIN bl, j \in DOMAIN bl :
-        (i < j /\ bl[i].t = bl[j].t) => PosSet(bl[i]) \cap PosSet(bl[j]) = {}
+  IN \A t \in 1..NTgt(call) : \A p \in 1..Size(call.tshape[t]) :
+        Cardinality({ i \in DOMAIN bl : bl[i].t = t /\ p \in PosSet(bl[i]) }) = Cover(call, t)[p]
 BlocksCover(call) ==
   LET bl == AllBlocks(call)
   IN \A t \in 1..NTgt(call) :
@@ -115,6 +130,7 @@ BlocksCover(call) ==
 ----------------------------------------------------------------------------
 (* state and operations *)
 S0(call) == [tg |-> [t \in 1..NTgt(call) |-> [p \in 1..Size(call.tshape[t]) |-> 0]],
+             wn |-> [t \in 1..NTgt(call) |-> [p \in 1..Size(call.tshape[t]) |-> 0]],
              wr |-> {}, fl |-> {}, hold |-> 0]
 
 WriteShapeOK(exp, w) == /\ w.t \in DOMAIN exp
@@ -122,13 +138,16 @@ WriteShapeOK(exp, w) == /\ w.t \in DOMAIN exp
                         /\ \A j \in DOMAIN w.pos : w.pos[j] \in DOMAIN exp[w.t]
 
 \* names of the clauses of the property a write that enters __setitem__ now would break
-WriteBeginBad(exp, lockm, st, w) ==
+WriteBeginBad(exp, cov, lockm, st, w) ==
   IF ~WriteShapeOK(exp, w) THEN {"OutOfBounds"}
   ELSE Cl("InRegion",  \A j \in DOMAIN w.pos : exp[w.t][w.pos[j]] # 0)                 \* nothing outside the region
        \cup Cl("Values", \A j \in DOMAIN w.pos : exp[w.t][w.pos[j]] \in {0, w.val[j]})  \* the cell's own source element
-       \cup Cl("WriteOnce", /\ \A j \in DOMAIN w.pos : <<w.t, w.pos[j]>> \notin st.wr
+       \* no cell is written more often than elements go to it (once, unless the caller's regions overlap)
+       \cup Cl("WriteOnce", /\ \A j \in DOMAIN w.pos :
+                                  st.wn[w.t][w.pos[j]] + Cardinality({ f \in st.fl : f.t = w.t /\ w.pos[j] \in PosSet(f) })
+                                     < cov[w.t][w.pos[j]]
                             /\ Cardinality(PosSet(w)) = Len(w.pos))
-       \cup Cl("NoOverlap", \A f \in st.fl : f.t = w.t => PosSet(f) \cap PosSet(w) = {})
+       \cup Cl("NoOverlap", \A f \in st.fl : f.t = w.t => \A p \in PosSet(f) \cap PosSet(w) : cov[w.t][p] > 1)
        \cup Cl("MutualExclusion", lockm # "none" => st.fl = {})
        \cup Cl("HoldsLock", lockm = "user" => st.hold = w.who)
 
@@ -137,6 +156,7 @@ InFlight(st, who)   == { f \in st.fl : f.who = who }
 DoWriteEnd(st, w) ==
   [st EXCEPT !.fl = @ \ {w},
              !.wr = @ \cup { <<w.t, w.pos[j]>> : j \in DOMAIN w.pos },
+             !.wn[w.t] = [p \in DOMAIN @ |-> IF p \in PosSet(w) THEN @[p] + 1 ELSE @[p]],
              !.tg[w.t] = [p \in DOMAIN @ |-> IF p \in PosSet(w) THEN w.val[CHOOSE j \in DOMAIN w.pos : w.pos[j] = p] ELSE @[p]]]
 
 \* a read of region cells (return_stored): only after the cells were stored, and it sees the source
@@ -158,7 +178,8 @@ RegionCells(exp)  == { <<t, p>> \in UNION { {t} \X DOMAIN exp[t] : t \in DOMAIN 
 OutsideUntouchedIn(exp, st) == \A t \in DOMAIN exp : \A p \in DOMAIN exp[t] : exp[t][p] = 0 => st.tg[t][p] = 0
 WrittenCorrectIn(exp, st)   == \A t \in DOMAIN exp : \A p \in DOMAIN exp[t] :
                                   st.tg[t][p] = IF <<t, p>> \in st.wr THEN exp[t][p] ELSE 0
-NoOverlapIn(st)        == \A f \in st.fl, g \in st.fl : (f # g /\ f.t = g.t) => PosSet(f) \cap PosSet(g) = {}
+NoOverlapIn(cov, st)   == \A f \in st.fl, g \in st.fl : (f # g /\ f.t = g.t) => \A p \in PosSet(f) \cap PosSet(g) : cov[f.t][p] > 1
+WriteCountsIn(cov, st) == \A t \in DOMAIN cov : \A p \in DOMAIN cov[t] : st.wn[t][p] <= cov[t][p]
 MutexIn(lockm, st)     == lockm # "none" => Cardinality(st.fl) <= 1
 CompleteIn(exp, st)    == st.wr = RegionCells(exp) /\ st.fl = {} /\ st.tg = exp
 FinalBad(exp, lockm, st, cells) ==
